@@ -170,6 +170,11 @@ def run(ctx):
         if keyed:
             req["key"] = key
         snap = snapshot_reqs(cache, keys)
+        if not point.startswith("reject") and point not in ("close_commit", "io_failed_commit") and ln:
+            # a writer that is merely dropped (after any number of chunks, a flush or a close) must not make its bytes
+            # reachable by address either
+            a_sri = ref.sri("sha256", data)
+            snap = snap + [{"op": "exists", "cache": cache, "sri": a_sri}, {"op": "read_hash", "cache": cache, "sri": a_sri}]
         # generous while the temp area behaves; once a permanent leak has been established there is no point in
         # waiting 10 s for every further case
         qms = 10000 if leaks_found == 0 else 200
